@@ -226,7 +226,22 @@ def r10_4(ctx):
     dl = [n for n in c2.where(lambda n: n.kind == 'stmt' and isinstance(n.ast, ast.Delete)
                               and any(ast.unparse(t).startswith('self._pool[') for t in n.ast.targets))]
     ok = bool(cl) and bool(ex) and bool(dl)
-    if ok:
+    filt = []
+    if cl and ex and not dl:
+        # removal by filtering on the dict of reaped workers: [w for w in self._pool if w.pid not in cleaned]
+        for (dn, t, v) in q.assigns(je, ('self._pool', 'self._pool[:]')):
+            if isinstance(v, ast.ListComp) and len(v.generators) == 1 and len(v.generators[0].ifs) == 1 and \
+                    ast.unparse(v.generators[0].iter) == 'self._pool':
+                w = ast.unparse(v.generators[0].target)
+                if ast.unparse(v.generators[0].ifs[0]) == '%s.pid not in %s' % (w, RA.cleaned) and ast.unparse(v.elt) == w:
+                    filt.append(dn)
+    if filt:
+        heads = {n.id for n in c2.where(lambda n: n.kind == 'for')}
+        ok = all(c2.must_pass([c], [c2.nodes[h] for h in heads] + [c2.exit], ex, skip_labels=('x',))[0] or
+                 c2.dominated_by(c, ex)[0] for c in cl) and \
+            all(c2.must_pass([e], [c2.nodes[h] for h in heads] + [c2.exit], cl, skip_labels=('x',))[0] or
+                c2.dominated_by(e, cl)[0] for e in ex)
+    elif ok:
         heads = {n.id for n in c2.where(lambda n: n.kind == 'for')}
         for d in dl:
             r = c2.reach([h for h in heads], block_nodes={n.id for n in ex}, skip_labels=('x',))
